@@ -41,6 +41,9 @@ CHECKS = {
  'C08': dict(technique=TECH,
    text='The handle discipline is model-checked as slots/ledger in BDDSpec (create, dup, drop in any order, collect, swap: RefExact, HeldSame). Seeded dd.autoref histories (all Function operators, traversals low/high/succ, second handles incl. copy.copy and _add_int, drops in random order, collect_garbage, reorder, one third with dynamic reordering on) are recorded with the ledger taken from gc.get_objects() (live Function objects per node) and every step is judged by TLC: count = in-edges + live Functions, live denotations unchanged; finally all handles are dropped: collection must leave only the terminal and the shutdown check must pass.',
    note=TRUST + 'CPython immediate finalisation of Function objects; the registry is gc.get_objects().', design='7 (C08)'),
+ 'C16': dict(technique='explicit TLA+ semantics of the abstract DDDMP file (TraceDDDMP.tla: FileDen by direct evaluation of the node list) checked by TLC against the manager returned by dd.dddmp.load',
+   text='Seeded text-mode DDDMP files (1-3 roots of either sign over 1-5 support variables out of up to 8 declared, random children-before-parents numbering, gaps in permutation ids, with/without .orderedvarnames, varinfo 0/1/3) are written by the harness and loaded by the real dd.dddmp.load; TLC evaluates the file\'s node list directly (FileDen) and compares, by variable name, with the denotations of the returned roots computed from the returned manager\'s node table; every file node must be present; manager canonical; relative order kept.',
+   note=TRUST + 'The DDDMP writer is a trusted ~80-line generator; the header grammar/lexer is not modelled (byte-level format is outside the technique).', design='7 (C16)'),
  'C17': dict(technique=TECH,
    text='About 60 kinds of rejected call (undeclared variables, unknown nodes, unknown operator, arity errors, syntax errors with the offending token at every position, bad levels/orders/swaps, undeclare of used/unknown variables, unreadable files, ...) are injected with probability 0.3 at every step of seeded dd.bdd histories, half of them with dynamic reordering on; TLC checks after every raised call that held denotations, canonicity, exact counts, order and flags are intact (exc.*) and that the next successful call satisfies its own contract (exc.next). The decorator protocol incl. a call that raises in the retry is model-checked (MC_Dyn_protected).',
    note=TRUST + 'A rejected call may leave new unreferenced nodes. Foreign-manager Functions (dd.autoref) are covered in C08 histories only implicitly.', design='7 (C17)'),
